@@ -381,12 +381,12 @@ def main():
         order = list(range(n, 0, -1)) if desc else list(range(1, n + 1))
         return any(not valid(es[order[j] - 1]) for j in range(k, n, k))
 
-    def judge_walk(op, what, lines, outs, meta, note=""):
+    def judge_walk(op, what, lines, outs, meta, note="", kp=""):
         for l, o, (es, k, desc) in zip(lines, outs, meta):
             st = o.split()[0]
             if st in ("1", "2"):
                 zero = any(e == ("x", -2) for e in es)
-                key = "%s-%s%s" % (what, "crash" if st == "1" else "hang", "-zeroed-entry" if (zero and st == "1") else "")
+                key = kp + "%s-%s%s" % (what, "crash" if st == "1" else "hang", "-zeroed-entry" if (zero and st == "1") else "")
                 c.violation(key, "%s page walk%s (page size %d, %s) over %s %s" % (what, note, k, "desc" if desc else "asc", fmt_big(es), "panics" if st == "1" else "does not terminate"),
                             {"cases": [l], "got": o})
                 continue
@@ -396,7 +396,7 @@ def main():
                 if boundary_invalid(es, k, desc):
                     key = "deleted-page-boundary"
                 else:
-                    key = "%s-page-walk" % what
+                    key = kp + "%s-page-walk" % what
                 c.violation(key, "%s page walk%s (page size %d, %s) over %s: [status end pages visited...] = %s, every entry once in order would be %s%s" % (
                     what, note, k, "desc" if desc else "asc", fmt_big(es), clip(o), clip(exp),
                     "  (end 90 = a listed summary is not the record stored at its position)" if o.split()[1:2] == ["90"] else ""), {"cases": [l], "expected": exp, "got": o})
@@ -605,6 +605,99 @@ def main():
     c.sample({"op": "bbs.LoadGeneralArticles walk, entry deleted between pages", "file": fmt_es(meta[-1][0]), "page_size": meta[-1][1], "desc": meta[-1][2],
               "deleted (page, position)": [list(d) for d in meta[-1][3]], "impl": io[-1]})
     c.cov["exhaustive_parts"].append("bbs walks with the cursor's entry (and its neighbours in the listing direction) deleted before any page, files of n <= %d; every single deletion for n <= %d" % (NDEL_BND, NDEL_ALL))
+
+
+    # ---------------------------------------------------------------- the environment of a lookup
+    # (a) the PATH LAYOUT of the index: a regular file, a symbolic link to a file next to it / in another directory, a
+    #     chain of links, a second hard link - with the board's article count obtained by the project's own first access
+    #     (count reset to 0, cache.GetBTotalWithRetry -> SetBTotal) instead of being set by the harness;
+    # (b) OTHER OPERATIONS OF THE SAME PROCESS inside the same index while the lookup runs: an AppendRecord parked after
+    #     taking the index lock, a DeleteRecord parked after registering the lock, another FindRecordStartIdx parked after
+    #     opening the file (schedule points, nothing written yet), and the same lookup in four free-running goroutines.
+    # The entries are unchanged in every case, so every answer must be the linear scan's - the same references as above.
+    LAYOUTS = {0: "regular file", 1: "symbolic link (relative)", 2: "symbolic link into another directory", 3: "chain of two symbolic links", 4: "second hard link"}
+    MODES = {1: "an AppendRecord of the same process holds the index lock (nothing written yet)",
+             2: "a DeleteRecord of the same process has registered the index lock (nothing written yet)",
+             3: "another FindRecordStartIdx of the same process has the index open",
+             4: "the same lookup runs in four goroutines of the process at once"}
+    NENV = 5 if thorough else 4
+    efiles = [(pat, es) for pat, es in files if len(es) <= NENV]
+    big_env = [bigs_e for bigs_e in ([(B + (i // 3) * 7, i) for i in range(130)],)]
+
+    def env_cases(es, full):
+        """(op line without wrapper, kind, expected result, text) for one file"""
+        n = len(es)
+        out = []
+        curs = [None] + [(T, nm) for (T, nm, cls) in cursors(es) if nm is not None]
+        if not full:
+            curs = curs[:2] + curs[-3:]
+        for cur in curs:
+            for k in ((1, n + 1) if full else (n + 1,)):
+                for desc in (True, False):
+                    out.append(("7|%s|%s %d %d" % (entries_wire(es), "0 0 0" if cur is None else "1 %d %d" % cur, k, 1 if desc else 0), "bbs-cursor",
+                                ref_bbs_page(es, cur, k, desc),
+                                "bbs.LoadGeneralArticles(%s, cursor %s, page size %d, %s)" % (fmt_big(es), "none" if cur is None else "%d/%d" % (cur[0] - B, cur[1]), k, "desc" if desc else "asc")))
+        for (T, name, cls) in (cursors(es) if full else cursors(es)[:2] + cursors(es)[-2:]):
+            for desc in (True, False):
+                want = ref_find(es, T, name, desc)
+                out.append((find_line(es, n, T, name, desc), "find", "0 %d" % want if want is not None else "3 1",
+                            "FindRecordStartIdx(%s, T=%d%s, %s)" % (fmt_big(es), T - B, "" if name is None else "/%d" % name, "desc" if desc else "asc")))
+        times = sorted({e[0] for e in es if valid(e)})
+        qs = [(e[0], e[1]) for e in es if valid(e)] + [(t, ABSENT) for t in times[:1]]
+        for (T, nm) in (qs if full else qs[:1] + qs[-2:]):
+            pos = [i + 1 for i, e in enumerate(es) if valid(e) and e == (T, nm)]
+            out.append(("2|%s|%d %d %d" % (entries_wire(es), n, T, nm), "getrecord", "0 %d" % pos[0] if pos else "3 1",
+                        "GetRecord(%s, %d/%d)" % (fmt_big(es), T - B, nm)))
+        return out
+
+    def env_walks(es, full):
+        n = len(es)
+        return [(op, what, k, desc) for op, what in ((4, "cmsys"), (5, "bbs")) for k in (range(1, n + 2) if full else (1, 20, n + 1)) for desc in (True, False)]
+
+    for wrap, table, kname in ((30, LAYOUTS, "index-path"), (31, MODES, "overlap")):
+        lines, meta = [], []
+        wl, wm = {}, {}
+        for v in sorted(table):
+            if wrap == 30 and v == 0 and False:
+                continue
+            for pat, es in efiles + [("big", b) for b in big_env]:
+                full = len(es) <= NENV
+                if wrap == 31 and full and (len(es) > NENV - 1 or (len(es) > 2 and v == 4)):
+                    continue     # the parked modes on the files of n <= 3 entries, the free-running mode on n <= 2
+                if wrap == 30 and full and len(es) > NENV - 1 and v != 1:
+                    continue     # every layout on n <= 3, the relative symbolic link on all files
+                for (l, kind, exp, txt) in env_cases(es, full):
+                    lines.append("%d %d %s" % (wrap, v, l))
+                    meta.append((v, kind, exp, txt))
+                for (op, what, k, desc) in env_walks(es, full):
+                    wl.setdefault((v, op), []).append("%d %d %d|%s|%d %d" % (wrap, v, op, entries_wire(es), k, 1 if desc else 0))
+                    wm.setdefault((v, op), []).append((es, k, desc))
+        io, mo = both(lines, "lookups: %s" % kname)
+        c.count(len(lines), kname)
+        for l, o, (v, kind, exp, txt) in zip(lines, io, meta):
+            st = o.split()[0]
+            where = ("the index is a %s, article count by first access" if wrap == 30 else "while %s") % table[v]
+            c.nontrivial((kname, v, l))
+            if st in ("1", "2"):
+                c.violation("%s-%d-%s-%s" % (kname, v, kind, "crash" if st == "1" else "does-not-return"),
+                            "%s, %s: %s" % (txt, where, "panics" if st == "1" else "does not return while the other operation is inside the index"), {"cases": [l], "got": o})
+            elif o.strip() != exp:
+                if kind == "bbs-cursor" and exp.startswith("0") and exp.split()[3] == "-2" and o.split()[:3] == exp.split()[:3]:
+                    key = "deleted-page-boundary"
+                else:
+                    key = "%s-%d-%s" % (kname, v, kind)
+                c.violation(key, "%s, %s = %s; the linear scan of the (unchanged) entries gives %s  (3 8 / an empty page: the board counts 0 articles; 3 10: refused by the per-process lock table)" % (
+                    txt, where, o.strip(), exp), {"cases": [l], "expected": exp, "got": o})
+        for (v, op) in sorted(wl):
+            io, mo = both(wl[(v, op)], "page walks: %s %d" % (kname, v))
+            c.count(len(wl[(v, op)]), kname + "-walk")
+            judge_walk(op, "cmsys" if op == 4 else "bbs", wl[(v, op)], io, wm[(v, op)],
+                       (", the index a %s" if wrap == 30 else " while %s") % table[v], kp="%s-%d-" % (kname, v))
+        c.sample({"op": kname, "case": lines[-1][:160], "impl": io[-1][:80]})
+    c.cov["exhaustive_parts"].append("every file of n <= %d entries (n <= %d under the relative symbolic link) reached through each path layout %s with the article count taken by first access, and "
+                                     "(n <= %d: the parked modes, n <= 2: free-running goroutines) with another operation of the same process inside the index %s: "
+                                     "bbs.LoadGeneralArticles with every cursor class, FindRecordStartIdx, GetRecord, both page walks" % (
+                                         NENV - 1, NENV, sorted(LAYOUTS.values()), NENV - 1, sorted(MODES)))
 
     # ---------------------------------------------------------------- random large files
     nfiles = 60 if thorough else 10
@@ -904,6 +997,7 @@ def main():
                   "while the cursor's entry (alone / with its neighbours / with everything after it in the listing direction) or any single entry is deleted between pages; "
                   "site configurations: the lookups, both walks and the bbs cursor calls again under FN_SAFEDEL=\".d\" and \".deleted\" (and one more prefix length / all of 2..8 in the thorough tier) over every file of n <= %d entries "
                   "whose names differ only in the leading digits of the time (10^4 .. 10^8 seconds apart, one shared suffix), with cursors / looked-up names of the same shape, and Filename_t.Eq itself under every prefix length; "
+                  "environment: every file of n <= 3 (thorough 4; n <= 4 / 5 under the relative symbolic link) entries and one of 130 under each of 5 path layouts of the index (count by first access) and with an append / delete / lookup of the same process parked inside the index or four goroutines running the lookup at once; "
                   "large pages: GetRecords counts and page sizes 127..258, n-1, n, n+1 over %d files of 130..385 (thorough: ..1000) entries, every summary compared with the stored record after the call returned; a case is non-trivial if it is a distinct (configuration, file, cursor, direction) / (configuration, file, page size, direction) that returned" % (NMAX, nfiles, NCUR_BBS, NCFG, nbig),
              assumptions=["cursor time and cursor file name are consistent (every caller in ptt/bbs derives both from one file name; DeserializeArticleIdxStr enforces it)",
                           "creation times in [0, 2^31): Time4 subtraction is modelled with wrap32",
@@ -912,6 +1006,8 @@ def main():
                           "the index file is quiescent during a lookup; os file I/O, strconv.Atoi and encoding/binary are exercised, not verified",
                           "of the site configuration only FN_SAFEDEL is varied (set through its configuration key and ptttype.InitConfig()): prefix lengths 2 and 8 always, 3..7 sampled (thorough: all); every other key keeps its default",
                           "GetRecords is exercised up to 1000 records in one call (quick: 386); larger counts rest on C06_getrecords_eq_scan and the model correspondence only",
+                          "path layout and overlap (validation, not theorem): the index reached through a regular file, symbolic links (relative, into another directory, a chain of two) and a second hard link with the board's count obtained by first access; another operation of the SAME process parked inside the index at the schedule points append.locked / flock.tabled / find.opened with nothing written yet, and four free-running goroutines; kernel path resolution and goroutine parallelism are not in the Coq model (C06_env_independent is about the model), symbolic-link directories and overlap at other points are not exercised",
+                          "on first access the error cache.SetBTotal returns AFTER storing the count when the last entry has no parsable creation time is ignored by the harness",
                           "bbs-level cursor text round trip (Serialize/DeserializeArticleIdxStr via the article id of C13) is validated by the bbs walk correspondence, proved only in C13"])
 
 
